@@ -11,8 +11,8 @@ Proof.
   - exists g. apply inv_load_a; auto.
   - exists g. apply inv_idle; auto.
   - destruct (Nat.eq_dec i 0) as [->|Hne].
-    + apply (inv_contrib_root c g); auto.
-    + apply (inv_contrib_nonroot c g); auto.
+    + destruct (inv_contrib_root c g HI H0 H1 H2) as (g' & A & _). exists g'. exact A.
+    + destruct (inv_contrib_nonroot c g i HI H Hne H0 H1 H2) as (g' & A & _). exists g'. exact A.
   - exists g. apply inv_send; auto.
   - exists g. apply inv_rstart; auto.
   - exists g. apply inv_rend; auto.
